@@ -174,6 +174,17 @@ def _call(case, op):
         return Quaternion.from_matrix3(R).to_matrix3()
     if op == 'q2m2q':
         return Quaternion.from_matrix3(mk(case['a']).to_matrix3())
+    if op == 'm2q':
+        return Quaternion.from_matrix3(mk(case['a']))
+    if op == 'toeuler':
+        m3 = mk(case['a'])
+        angs = m3.to_euler(case['axes'])
+        # observed as (sin, cos) of the three returned angles: a [3, 2] item per element, mask of the angles
+        vals = np.stack([np.stack([np.sin(a._values_), np.cos(a._values_)], axis=-1) for a in angs], axis=-2)
+        mask = angs[0]._mask_
+        for a in angs[1:]:
+            mask = mask | a._mask_
+        return Matrix(vals, mask)
     raise KeyError(op)
 
 
@@ -218,6 +229,16 @@ def request(case):
         return ['c16', mode, op, case['axes'], sc_opd(case['ai'], h), sc_opd(case['aj'], h), sc_opd(case['ak'], h)]
     if op == 'inverse':
         return ['c16', mode, op, opd_sx(case['a']), bool(case.get('nozeros'))]
+    if op == 'toeuler':
+        return ['c16', mode, op, case['axes'], opd_sx(case['a'])]
+    if op == 'm2q':
+        Q = vals_of(case['a'])
+        diags = Q.reshape(Q.shape[:-2] + (9,))[..., ::4]
+        with np.errstate(all='ignore'):
+            r = np.sqrt(1 + 2 * np.max(diags, axis=-1) - np.sum(diags, axis=-1))
+        if not np.isfinite(r).all():
+            return None
+        return ['c16', mode, op, opd_sx(case['a']), [ratstr(x) for x in np.ravel(r)]]
     return None
 
 
@@ -630,6 +651,13 @@ def j_rot(case, r):
         e = np.zeros(3); e[axis] = 1.
         if not (np.abs(m @ e - e).max() <= TOL and abs(np.trace(m) - 1 - 2 * math.cos(t)) <= TOL):
             return (signature(case) + ':value', 'rotation about axis %d by %r: axis not fixed or trace != 1+2cos' % (axis, float(t)))
+    # sense of rotation promised by the docstrings: "rotates a vector counterclockwise about the axis by the specified angle"
+    b, c = (axis + 1) % 3, (axis + 2) % 3
+    for m, t in zip(v, ang):
+        if not abs(m[c, b] - math.sin(t)) <= TOL:
+            return (signature(case) + ':sense-' + 'xyz'[axis],
+                    '%s_rotation(%r) turns the %s axis towards -%s: clockwise, the docstring says counterclockwise'
+                    % ('xyz'[axis], float(t), 'xyz'[b], 'xyz'[c]))
     return None
 
 def j_pole(case, r):
@@ -821,6 +849,31 @@ def j_m2q2m(case, r):
     R = Matrix3.from_euler(mk(ai), mk(aj), mk(ak), case['axes'])
     full = np.broadcast_to(np.asarray(R._values_, dtype=float), out + (3, 3))
     return check(r, case, 'Matrix3 -> Quaternion -> Matrix3', out, [3, 3], [], full, or_masks(out, ai, aj, ak), tol=1e-9)
+
+def j_toeuler(case, r):
+    """to_euler of a rotation matrix: the angles rebuild the matrix, masks carry"""
+    a = case['a']
+    res = mask_carry(r, case, 'to_euler', a['shape'], a)
+    if res:
+        return res
+    m3 = mk(a)
+    back = Matrix3.from_euler(*m3.to_euler(case['axes']), axes=case['axes'])
+    return check(back, case, 'from_euler(to_euler(M))', a['shape'], [3, 3], [], vals_of(a), mbits(a), tol=1e-7)
+
+def j_m2q(case, r):
+    """Quaternion.from_matrix3 of a rotation matrix: unit quaternion whose matrix is the operand"""
+    a = case['a']
+    A = vals_of(a)
+    res = mask_carry(r, case, 'from_matrix3', a['shape'], a)
+    if res:
+        return res
+    v, pos = unmasked_items(r)
+    src = A.reshape(-1, 3, 3)[pos] if v.size else v
+    for q, m in zip(v, src):
+        back, _ = q2m_ref(q)
+        if not (abs(np.sum(q * q) - 1) <= 1e-9 and np.abs(back - m).max() <= 1e-9):
+            return (signature(case) + ':value', 'from_matrix3(%s) = %s is not a unit quaternion of that rotation' % (m.tolist(), q.tolist()))
+    return None
 
 def j_q2m2q(case, r):
     a = case['a']
